@@ -623,8 +623,7 @@ class MasterSim(object):
         if name not in self.down_since:
             self.vanished.pop(name, None)
 
-    def op_down(self, idx):
-        """The node dies: its session expires, the presence node vanishes."""
+    def _pick_loaded(self, idx):
         name = self._pick_server(idx)
         loaded = sorted(
             srv for srv in self.nodes
@@ -632,15 +631,16 @@ class MasterSim(object):
             self.master.servers[srv].apps)
         if loaded and idx % 4:
             name = loaded[idx % len(loaded)]
+        return name
+
+    def _down(self, name):
         if name is None or name not in self.nodes:
             return
         self.tick()
         self.vanished.setdefault(name, self.clock.peek())
         self.tree.expire(self.nodes.pop(name))
 
-    def op_up(self, idx, spec=None):
-        """The node (re)boots, possibly with other capacity/traits."""
-        name = self._pick_server(idx)
+    def _up(self, name, spec=None):
         if name is None or name in self.nodes:
             return
         if self.tree.nodes.get(z.path.server(name)) is None:
@@ -651,9 +651,18 @@ class MasterSim(object):
                         'style': spec.get('style', 0)})
         self._node_up(name, new)
 
+    def op_down(self, idx):
+        """The node dies: its session expires, the presence node vanishes."""
+        self._down(self._pick_loaded(idx))
+
+    def op_up(self, idx, spec=None):
+        """The node (re)boots, possibly with other capacity/traits."""
+        self._up(self._pick_server(idx), spec)
+
     def op_reboot(self, idx, spec=None):
-        self.op_down(idx)
-        self.op_up(idx, spec)
+        name = self._pick_loaded(idx)
+        self._down(name)
+        self._up(name, spec)
 
     def op_resize(self, idx, cap, style):
         name = self._pick_server(idx)
